@@ -82,6 +82,10 @@ pub fn reject_v<T>() -> (r: T) ensures false { panic!() }
 #[verifier::external_body]
 pub fn must_not_reject_v<T>() -> (r: T) requires false { panic!() }
 
+// R32 / R34: ghost hint emitted at the head of each generated chunk loop (erased)
+pub proof fn lemma_chunk_step(ci: int, c: int) ensures (ci + 1) * c == ci * c + c, (ci >= 0 && c >= 1) ==> ci <= ci * c
+{ assert((ci + 1) * c == ci * c + c) by (nonlinear_arith); if ci >= 0 && c >= 1 { assert(ci <= ci * c) by (nonlinear_arith) requires ci >= 0, c >= 1; } }
+
 // shape predicates
 pub open spec fn rect2(x: Seq<Vec<f32>>, h: int, w: int) -> bool {
     x.len() == h && forall|i: int| 0 <= i < h ==> (#[trigger] x[i]).len() == w
